@@ -104,6 +104,12 @@ func (x *Exec) native(st *State, fr *Frame, callee *ssa.Function, key string, ar
 		k(st, Val{T: rt, S: r, Sort: "Iface"})
 		return true
 	case "time.After":
+		// a wait in code that runs synchronously (not the body of a goroutine started for the purpose) is bounded by a
+		// constant: a duration computed from peer-controlled data would let the peer park the caller - for the
+		// receive path that is "blocks its receive loop indefinitely" (C08)
+		if x.fc != nil && x.fc.Kind != "closure" && len(argv) == 1 && argv[0].Sort == "Int" {
+			x.oblige(st, "safety:wait", x.site("After", pos), "", x.safetyTags, "(<= "+argv[0].S+" 60000000000)", pos, "synchronous wait is bounded (at most 60 s)")
+		}
 		k(st, freshRet("timech"))
 		return true
 	case "errors.New", "fmt.Errorf":
